@@ -9,6 +9,7 @@
   upstreams built by `upstream.NewUpstream` against scripted servers).
 -/
 import MosVerif.Lemmas.UpReplyLemmas
+import MosVerif.Lemmas.TranslatedC01Up
 namespace MosVerif.C01Up
 open MosVerif MosVerif.Wire MosVerif.UpReply
 
@@ -482,31 +483,31 @@ theorem model_meets_spec (c : Case) (echo : String)
 
 /-- Non-vacuity: a script on which the model predicts a reply, one on which it predicts failure. -/
 example : predictFirst ⟨"quic", [.write ([0, 19] ++ dupReply)], [], false⟩ = .resp := by
-  simp [predictFirst, isReuse, isPipe, quicFirst, streamOf, termOf, readMsgFromTCP, be16]
+  simp [predictFirst, isReuse, isPipe, quicFirst, streamOf, termOf, readMsgFromTCP, tcpBodyLen, be16]
   up_eval
 example : predictFirst ⟨"tcp", [.write [0xff, 0xff, 1, 2, 3], .close], [], false⟩ = .err := by
-  simp [predictFirst, isReuse, reuseFirst, reuseExchange, streamOf, readMsgFromTCP, be16]
+  simp [predictFirst, isReuse, reuseFirst, reuseExchange, streamOf, readMsgFromTCP, tcpBodyLen, be16]
 
-/-- tie: the statements of the code the model is written against. -/
+/-- tie: the statements of the code the model is written against. The integer / boolean conditions are no longer
+    pinned as text: `Lemmas/TranslatedC01Up.lean` proves the model's named definitions equal to their translation
+    from the current source (`udpFloor`: the 2048 floor of `ReadMsgFromUDP`; `tcCut`: `err != nil && n >= 12 &&
+    b[2]&(1<<1) != 0`; `tcpBodyLen`: `pool.GetBuf(int(length))`; `udpSkips`: `n > 0`; `idMatches`:
+    `r.Header.ID != qid`), and `Lemmas/TranslatedCodecMsg.unpackMsg_translated` the decoder they all call. -/
 theorem pins :
     Facts.c01up_deliverCase = "case resChan <- r:" ∧
     Facts.c01up_deliverDefault = "default: dnsmsg.ReleaseMsg(r)" ∧
     Facts.c01up_selects = 1 ∧
     Facts.c01up_nilChan = "resChan != nil" ∧
     Facts.c01up_udpBufSize = 65535 ∧
-    Facts.c01up_udpTcCond = "err != nil && n >= 12 && b[2]&(1<<1) != 0" ∧
     Facts.c01up_udpTcNew = "m = dnsmsg.NewMsg()" ∧
     Facts.c01up_udpTcId = "m.Header.ID = binary.BigEndian.Uint16(b)" ∧
     Facts.c01up_udpTcResp = "m.Header.Response = b[2]&(1<<7) != 0" ∧
     Facts.c01up_udpTcFlag = "m.Header.Truncated = true" ∧
     Facts.c01up_dohRetryCond = "connErr && (reused.Load() || isQuicConnErr(err) || isHttp3Err(err)) && retry < 3 && ctx.Err() == nil" ∧
-    Facts.c01up_udpMinBuf = 2048 ∧
-    Facts.c01up_udpSkipCond = "n > 0" ∧
     Facts.c01up_loopContinues = 2 ∧
     Facts.c01up_readErrClose = "c.closeWithErr(fmt.Errorf(\"read err, %w\", err))" ∧
     Facts.c01up_tcpReadHdr = "nr, err := io.ReadFull(c, hdrBuf)" ∧
     Facts.c01up_tcpLen = "length := binary.BigEndian.Uint16(hdrBuf)" ∧
-    Facts.c01up_tcpBuf = "msgBuf := pool.GetBuf(int(length))" ∧
     Facts.c01up_tcpReadBody = "nr, err = io.ReadFull(c, msgBuf)" ∧
     Facts.c01up_tcpUnpack = "m, err := dnsmsg.UnpackMsg(msgBuf)" ∧
     Facts.c01up_udpRead = "n, err := c.Read(b)" ∧
@@ -518,7 +519,6 @@ theorem pins :
     Facts.c01up_dohContentLength = 0 ∧
     Facts.c01up_dohUnpack = "m, err := dnsmsg.UnpackMsg(bb.Bytes())" ∧
     Facts.c01up_reuseRead = "r, _, err := dnsutils.ReadMsgFromTCP(c.c)" ∧
-    Facts.c01up_reuseIdCond = "r.Header.ID != qid" ∧
     Facts.c01up_reuseQid = "qid := c.nextQid" ∧
     Facts.c01up_reuseSetQid = "binary.BigEndian.PutUint16(payload[2:], qid)" ∧
     Facts.c01up_quicRead = "r, _, err := dnsutils.ReadMsgFromTCP(stream)" := by decide
